@@ -115,3 +115,25 @@ def shift_amount(rng, w, n):
                     rng.randrange(W), rng.randrange(W), rng.randrange(W), rng.randrange(2 * W + 2),
                     rng.randrange(1 << 32)])
     return max(0, c)
+
+
+def edge_grid(w, n):
+    """all values whose digits are drawn from {0, 1, B/2-1, B/2, B-1} (5^n values); n <= 3 only"""
+    B = 1 << w
+    ds = [0, 1, B // 2 - 1, B // 2, B - 1]
+    vals = [0]
+    for i in range(n):
+        vals = [v | (d << (w * i)) for v in vals for d in ds]
+    return vals
+
+
+GRID_CFGS = ["8x1", "8x2", "16x2", "64x2", "8x3", "32x3"]
+
+
+def grid_pairs(rng, cfg, limit):
+    """(a, b) over the edge grid of `cfg`: complete when it has at most `limit` pairs, else a random sample"""
+    w, n = wn(cfg)
+    g = edge_grid(w, n)
+    if len(g) * len(g) <= limit:
+        return [(a, b) for a in g for b in g]
+    return [(rng.choice(g), rng.choice(g)) for _ in range(limit)]
